@@ -147,7 +147,7 @@ pub fn main(args: &[String]) -> Result<(), String> {
 
 pub const GARBAGE_KINDS: &[&str] =
     &["pairs", "vectors", "strings", "closures", "continuations", "eval", "toplevel", "symbols", "bignums", "mixed",
-      "contchain", "delayforce", "freshlocals", "bursts", "sliced-pairs", "sliced-closures"];
+      "contchain", "delayforce", "freshlocals", "bursts", "sliced-pairs", "sliced-closures", "failures"];
 
 /// (setup forms, loop form with the iteration count N substituted, per-iteration top-level form if any)
 fn garbage_program(kind: &str, live: usize, n: usize) -> (Vec<String>, Vec<String>) {
@@ -156,7 +156,7 @@ fn garbage_program(kind: &str, live: usize, n: usize) -> (Vec<String>, Vec<Strin
         "(define sink 0)".to_string(),
     ];
     let keep = match kind {
-        "pairs" | "toplevel" | "mixed" | "freshlocals" | "bursts" => format!("(define live (iota-list {}))", live),
+        "pairs" | "toplevel" | "mixed" | "freshlocals" | "bursts" | "failures" => format!("(define live (iota-list {}))", live),
         "contchain" => {
             setup.push("(define last #f)".to_string());
             setup.push("(define (remember! c) (set! last c) 0)".to_string());
@@ -195,6 +195,9 @@ fn garbage_program(kind: &str, live: usize, n: usize) -> (Vec<String>, Vec<Strin
     let run = if kind == "toplevel" {
         // n successive small top-level evaluations: their code is the garbage
         vec![format!("TOPLEVEL {}", n)]
+    } else if kind == "failures" {
+        // n successive evaluations that fail (run-time errors at some depth, compile errors): what they allocated is garbage
+        vec![format!("FAILURES {}", n)]
     } else if kind == "freshlocals" {
         // n successive top-level evaluations, each with local variable names never seen before
         vec![format!("FRESHLOCALS {}", n)]
@@ -258,6 +261,16 @@ fn run_garbage(kind: &str, live: usize, n: usize, every: u64, maxev: usize) -> R
             let cnt: usize = cnt.parse().unwrap();
             for i in 0..cnt {
                 ok &= eval_one(&mut s, &format!("(set! sink (+ {} (length (list 1 2 3))))", i % 1000));
+                if s.dead {
+                    break;
+                }
+            }
+        } else if let Some(cnt) = t.strip_prefix("FAILURES ") {
+            let cnt: usize = cnt.parse().unwrap();
+            let forms = ["(car (list-tail (list 1 2 3) 3))", "(vector-ref (vector 1 2) 5)", "((lambda (a) (+ a (car '()))) 1)", "(if)",
+                         "(undefined-variable-zz 1)", "(error \"boom\" (list 1 2 3))", "(let loop ((i 0)) (if (= i 20) (car '()) (loop (+ i 1))))"];
+            for i in 0..cnt {
+                let _ = eval_one(&mut s, forms[i % forms.len()]);
                 if s.dead {
                     break;
                 }
